@@ -392,8 +392,9 @@ def main(argv=None):
         },
         'assumptions': getattr(mod, 'ASSUMPTIONS', []),
     }
-    os.makedirs(EVIDENCE_DIR, exist_ok=True)
-    with open(os.path.join(EVIDENCE_DIR, pid + '.json'), 'w') as f:
+    evdir = EVIDENCE_DIR if not a.only else os.path.join(ROOT, '.cache', 'evidence_filtered')   # a filtered (debugging) run never replaces the evidence
+    os.makedirs(evdir, exist_ok=True)
+    with open(os.path.join(evdir, pid + '.json'), 'w') as f:
         json.dump(jnum(ev), f, indent=1)
 
     for l in known_lines:
